@@ -129,3 +129,23 @@ pub proof fn lemma_primitive_represents(x: (Operation, Partial), r: Option<Bound
         lemma_shape_represents(r, c);
     }
 }
+pub proof fn lemma_hyphen_represents(lo: Option<Partial>, up: Partial, r: Option<BoundSet>)
+    requires wf_partial(up), lo matches Some(f) ==> wf_partial(f), hyphen_post(lo, up, r),
+    ensures represents(r, match lo { Some(f) => npm_hyphen_c(f, up), None => npm_hyphen_to_only_c(up) }),
+{
+    cover_hyphen(lo, up);
+    let c = match lo { Some(f) => npm_hyphen_c(f, up), None => npm_hyphen_to_only_c(up) };
+    assert(c is Two ==> ((c->Two_0.op is Ge || c->Two_0.op is Gt) && (c->Two_1.op is Lt || c->Two_1.op is Le))) by {
+        if let Some(f) = lo {
+            assert(npm_hyphen_from(f) matches Some(a) ==> a.op is Ge);
+            assert(npm_hyphen_to(up) matches Some(b) ==> (b.op is Lt || b.op is Le));
+        }
+    }
+    assert(shape_ok_c(r, c)) by {
+        match lo {
+            None => { assert(shape_ok_c(r, npm_hyphen_to_only_c(up))); },
+            Some(f) => { assert(lo->0 == f); assert(shape_ok_c(r, npm_hyphen_c(lo->0, up))); },
+        }
+    }
+    lemma_shape_represents(r, c);
+}
